@@ -1282,7 +1282,13 @@ namespace
     {
         auto arr = left.data<d_array>();
         auto r = right.data<d_array>();
+        auto oldsize = arr->size();
         arr->insert(arr->end(), r->begin(), r->end());
+        if (!arr->recursion_test())
+        { // the appended elements lead back to the array itself: refuse, like pushBack and set do
+            arr->resize(oldsize);
+            runtime.__logmsg(err::ArrayRecursion(runtime.context_active().current_frame().diag_info_from_position()));
+        }
         return {};
     }
     value arrayintersect_array_array(runtime& runtime, value::cref left, value::cref right)
